@@ -7,5 +7,11 @@ def run(ctx):
     params = {'groupslen': 4, 'adminlen': 4} if ctx.tier == 'quick' else {'groupslen': 5, 'adminlen': 5}
     hs = [H('VerifC14', 'pkg/utils', {'pkg/utils/zz_verif_c14.go': 'c14/zz_verif_c14.go'}, unwind=params['groupslen'] + params['adminlen'] + 4,
             opts={'params': params}, timeout_ms=60000 if ctx.tier == 'quick' else 900000)]
+    nb = {'pkg/northbound/gnmi/v2/zz_verif_nbenv.go': 'nb/zz_verif_nbenv.go', 'pkg/northbound/gnmi/v2/zz_verif_nbgen.go': 'nb/zz_verif_nbgen.go',
+          'pkg/northbound/gnmi/v2/zz_verif_c14.go': 'c14/zz_verif_c14_set.go'}
+    sp = {'groupslen': 3, 'adminlen': 3} if ctx.tier == 'quick' else {'groupslen': 4, 'adminlen': 4}
+    hs.append(H('VerifC14Set', 'pkg/northbound/gnmi/v2', nb, unwind=14, opts={'params': sp}, timeout_ms=120000))
+    if ctx.only:
+        hs = [h for h in hs if h.entry in ctx.only]
     driver.check_harnesses(ctx, hs)
     driver.write_evidence(ctx, 'model_checking', 'bounded symbolic execution of the real TemporaryEvaluate', {'params': params}, [])
